@@ -15,6 +15,7 @@ rejects.  Every tree is rendered in 3 spellings (spacing, optional `*`, number f
 from __future__ import annotations
 
 import itertools
+import re
 import json
 import random
 from fractions import Fraction as F
@@ -823,6 +824,9 @@ def same_result(a: dict, b: dict) -> bool:
     return [G.mk_key(t) for t in a["ok"]] == [G.mk_key(t) for t in b["ok"]]
 
 
+_IDENT = re.compile(r"[A-Za-z][A-Za-z0-9_]*")
+
+
 class C09(Check):
     __doc__ = __doc__
     pid = "C09"
@@ -896,14 +900,55 @@ class C09(Check):
             again.append(same_result(a, b))
         return {"res": res, "reparse_equal": again}
 
+    @staticmethod
+    def _vm(case) -> C.VarMap:
+        """one variable table per case: the names of the tree and every identifier-shaped word of the strings (an
+        unused extra such as the `e5` of `1e5` only shifts indices)"""
+        names = set()
+        if case["kind"] != "malformed":
+            names |= names_in(case["expr"], set())
+        for s in case["strings"]:
+            names |= set(_IDENT.findall(s))
+        return C.VarMap(names)
+
     def model_request(self, case, impl):
-        if case["kind"] == "malformed":
+        # the strings themselves go through the model of the lexical level and of pyparsing's ordered choice
+        # (Model/Parse.lean); for a valid case the tree the harness meant goes through the parse actions as before
+        vm = self._vm(case)
+        req = {"op": "parse_strs", "strings": case["strings"], "names": [vm.n(i) for i in range(len(vm.names))]}
+        if case["kind"] != "malformed":
+            req["expr"] = to_wire(case["expr"], vm)
+        return req
+
+    @staticmethod
+    def _same(r: dict, m: dict, vm: C.VarMap) -> Optional[str]:
+        """implementation result of one string vs a model result"""
+        if "err" in m:
+            if r.get("err") != m["err"]:
+                return f"implementation {r.get('err', 'parsed')}, model {m['err']}"
             return None
-        vm = C.VarMap(names_in(case["expr"], set()))
-        return {"op": "translate", "expr": to_wire(case["expr"], vm)}
+        if "err" in r:
+            return f"implementation {r['err']}, model parsed {len(m['ok'])} terms"
+        try:
+            w = G.w_tl(r["ok"], vm)
+        except KeyError as e:
+            return f"implementation mentions an unknown variable {e}"
+        if not C.tls_close(w, m["ok"]):
+            return f"term lists differ: implementation {[C.wire_to_str(t, vm) for t in w]}, model {[C.wire_to_str(t, vm) for t in m['ok']]}"
+        return None
 
     def compare(self, case, impl, model):
-        vm = C.VarMap(names_in(case["expr"], set()))
+        vm = self._vm(case)
+        if "res" not in impl:
+            return "implementation run failed: " + str(impl)[:300]
+        # (a) every string, read by the model parser, against the implementation
+        for s, r, m in zip(case["strings"], impl["res"], model.get("parsed", [])):
+            d = self._same(r, m, vm)
+            if d is not None:
+                return f"string {s!r} (model parser): " + d
+        if case["kind"] == "malformed":
+            return None
+        # (b) the tree the harness meant, through the parse actions, against the implementation (as before)
         for s, r in zip(case["strings"], impl.get("res", [])):
             if "err" in model:
                 if r.get("err") != model["err"]:
